@@ -7,6 +7,35 @@ import numpy as np
 import common
 
 
+def coq_eval_batches(ctx, name, header, items, render, per_file=100, jobs=4, timeout=600):
+    """as common.coq_eval_batches, with -noglob (writing the .glob of a big literal costs more than checking it)"""
+    import os
+    from concurrent.futures import ThreadPoolExecutor
+    chunks = [(i, items[i:i + per_file]) for i in range(0, len(items), per_file)]
+    args = [os.path.join(common.COQ, a) if a in ("theories", "gen", "props") else a for a in common.QARGS]
+
+    def one(ch):
+        off, chunk = ch
+        path = os.path.join(ctx.work, f"{name}_{off}.v")
+        with open(path, "w") as fh:
+            fh.write(header + render(chunk, off))
+        rc, out = common.run(["coqc", "-noglob"] + args + [path], timeout, cwd=ctx.work)
+        return rc == 0, out
+    with ThreadPoolExecutor(max_workers=jobs) as ex:
+        return list(ex.map(one, chunks)), [off for off, _ in chunks]
+
+
+def collect_bad(results, offsets):
+    bad, err = [], None
+    for (ok, out), off in zip(results, offsets):
+        idx = common.coq_bad_indices(out) if ok else None
+        if idx is None:
+            err = out[-1500:]
+        else:
+            bad += [off + i for i in idx]
+    return bad, err
+
+
 # ------------------------------------------------------------------ dump (encoding documented in ReshapePairPass.v)
 def _op(n):
     dom = getattr(n, "domain", "") or ""
@@ -326,13 +355,7 @@ Definition chk (c : pgraph * (list node * list nat) * list (nat * list dim)) : b
             sh = "[" + "; ".join(f"({k}, {dims_lit(v)})" for k, v in sorted(shapes_after.items())) + "]"
             items.append(f"({pg}, ({coq_nodes(after[0])}, {nl(after[1])}), {sh})")
         return "Definition cs := [\n" + ";\n".join(items) + "].\nEval vm_compute in bad_idx_ chk 0 cs.\n"
-    bad, err = [], None
-    for (ok, out), off in zip(common.coq_eval_batches(ctx, "c02_reshape_pair", header, rows, render, per_file=100), range(0, len(rows), 100)):
-        idx = common.coq_bad_indices(out) if ok else None
-        if idx is None:
-            err = out[-1200:]
-        else:
-            bad += [off + i for i in idx]
+    bad, err = collect_bad(*coq_eval_batches(ctx, "c02_reshape_pair", header, rows, render))
     ctx.oblige(f"tie:ReshapePairPass.v reshape_pair_pass == remove_redundant_reshape_pairs_ir ({n_cases} random graphs, "
                f"{stats['graphs_rewritten']} rewritten, {stats['nodes_removed']} nodes removed, {stats['shapes_refreshed']} shapes refreshed)",
                err is None and bad == [], "tie",
